@@ -48,7 +48,7 @@ class Contract(object):
                  olds=None, derived=(), assumed=False, name=None,
                  pre_effects=None, allow_raise=None, on_entry=None,
                  trusted_note='', max_paths=20000, callee_only=False,
-                 replay=None, self_param='self'):
+                 replay=None, self_param='self', kwparams=None):
         self.ident = ident
         self.name = name or ident.split('::')[-1]
         self.params = OrderedDict(params or {})
@@ -72,6 +72,7 @@ class Contract(object):
         self.callee_only = callee_only
         self.replay = replay
         self.self_param = self_param
+        self.kwparams = dict(kwparams or {})     # passed as keyword arguments (**kwargs of the target)
 
     # ------------------------------------------------------------------
     def bind(self, it, args, kwargs, selfobj):
@@ -154,6 +155,12 @@ class Contract(object):
                 env['self'] = selfobj
             for n, td in self.params.items():
                 env[n] = it.fresh(td, n) if isinstance(td, TD) else td
+            kwenv = OrderedDict()
+            for n, td in self.kwparams.items():
+                v = it.fresh(td, n) if isinstance(td, TD) else td
+                if v is not Ellipsis:
+                    kwenv[n] = v
+            env['kwargs_given'] = kwenv
             path.inputs = dict(env)
             senv = dict(spec_env)
             senv.update(env)
@@ -167,7 +174,7 @@ class Contract(object):
             args = ([selfobj] if selfobj is not None else []) + [env[n] for n in self.params]
             outcome = None
             try:
-                result = it.run_function(fn, args, {})
+                result = it.run_function(fn, args, kwenv)
                 outcome = ('return', result)
             except PyExc as e:
                 outcome = ('raise', e)
